@@ -76,7 +76,11 @@ def reflect_emitted(wntr):
         if e["name"] in ZOO_CLASS:
             em[ZOO_CLASS[e["name"]]] = list(e.keys())
     em["Curve"] = list(d["curves"][0].keys())
-    em["Pattern"] = list(d["patterns"][0].keys())
+    # a pattern that does not repeat (wrap=False: fire-flow / binary patterns) emits `wrap` as well
+    wn.add_pattern("nowrap", wntr.network.elements.Pattern("nowrap", [1.0, 0.0], time_options=wn.options.time, wrap=False))
+    em["Pattern"] = []
+    for pd_ in wntr.network.to_dict(wn)["patterns"]:
+        em["Pattern"] += [k for k in pd_.keys() if k not in em["Pattern"]]
     em["Source"] = list(d["sources"][0].keys())
     # defaults: the attribute values of an element created through the API with the required arguments only
     # (what an attribute keeps when from_dict calls add_* and then does not touch it)
@@ -191,8 +195,12 @@ class _FromDictReader:
 
     def _stmts(self, body, elem, classes, guarded, env):
         for st in body:
-            if isinstance(st, ast.Assign) and len(st.targets) == 1 and isinstance(st.targets[0], ast.Attribute) \
-                    and isinstance(st.targets[0].value, ast.Name) and st.targets[0].value.id not in (elem, "wn"):
+            tgt = st.targets[0] if isinstance(st, ast.Assign) and len(st.targets) == 1 else None
+            on_obj = isinstance(tgt, ast.Attribute) and isinstance(tgt.value, ast.Name) and tgt.value.id not in (elem, "wn")
+            # `wn.get_pattern(pattern["name"]).wrap = ...`: the attribute of the element just re-created, fetched by its name
+            on_get = (isinstance(tgt, ast.Attribute) and isinstance(tgt.value, ast.Call) and isinstance(tgt.value.func, ast.Attribute)
+                      and tgt.value.func.attr.startswith("get_") and self.keys_of(tgt.value, elem, env) == ["name"])
+            if on_obj or on_get:
                 for k in self.keys_of(st.value, elem, env):
                     self._add(classes, k, "guarded" if guarded else "assign", st.targets[0].attr, self.xform_of(st.value, elem))
             elif isinstance(st, ast.Expr):
@@ -200,7 +208,12 @@ class _FromDictReader:
             elif isinstance(st, ast.Assign):
                 self._calls(st, elem, classes, env)
             elif isinstance(st, ast.If):
-                self._stmts(st.body, elem, classes, True, env)
+                # `if "key" in <element dict>:` is a presence test: to_dict leaves the key out exactly when the attribute has its
+                # default (Pattern.wrap), so the assignment under it is as good as an unconditional one
+                t = st.test
+                presence = (isinstance(t, ast.Compare) and len(t.ops) == 1 and isinstance(t.ops[0], ast.In) and self._const_str(t.left) is not None
+                            and isinstance(t.comparators[0], ast.Name) and t.comparators[0].id == elem and not st.orelse)
+                self._stmts(st.body, elem, classes, guarded if presence else True, env)
                 self._stmts(st.orelse, elem, classes, True, env)
             elif isinstance(st, ast.For):
                 # `for attr in list(set(node.keys()) - set(dir(j))): setattr(...)` (custom attributes) restores nothing emitted
@@ -999,6 +1012,12 @@ def edit_after_construction(rng, wn, wntr):
     for nm in wn.pattern_name_list:
         if rng.random() < 0.3:
             put(wn.get_pattern(nm), "multipliers", [round(rng.uniform(0.2, 1.8), 2) for _ in range(rng.randint(1, 5))])
+        if rng.random() < 0.25:
+            put(wn.get_pattern(nm), "wrap", False)        # a pattern that does not repeat (restored since a91a893a)
+    for _, t in wn.tanks():
+        if rng.random() < 0.2:
+            put(t, "mixing_model", "2COMP")
+            put(t, "mixing_fraction", 0.0)                # restored since a91a893a
     return done
 
 
@@ -1533,6 +1552,8 @@ class C13(Check):
                 for k, mv in model.items():
                     if mv == "<derived>":
                         continue
+                    if k not in ea and k not in eb:
+                        continue  # a key to_dict writes only off its default (Pattern.wrap): absent before and after
                     iv = json.dumps(eb.get(k, None), sort_keys=True) if k in eb else "<absent>"
                     ctx.count("model-vs-impl:" + ("agree" if mv == iv else "disagree"))
                     if mv != iv and nmis < 5:
